@@ -96,8 +96,84 @@ and casting equals casting and computing (exact for |values| < 2^53 in float64).
 theorem int_cast_mul (a b c d e f g h : ℤ) :
     (((a * e - b * f - c * g - d * h : ℤ) : ℝ)) = (a : ℝ) * e - b * f - c * g - d * h := by push_cast; ring
 
+/-- every chunk is non-empty and no longer than the chunk size: `chunks` really is a partition into blocks of the
+requested size (so the independence theorems speak about blocked evaluation, not about one big block) -/
+theorem chunksAux_sizes {α : Type} (n : Nat) : ∀ (fuel : Nat) (l : List α),
+    ∀ c ∈ chunksAux n fuel l, 0 < c.length ∧ c.length ≤ n + 1
+  | 0, _, c, h => by simp [chunksAux] at h
+  | fuel + 1, l, c, h => by
+    unfold chunksAux at h
+    cases l with
+    | nil => simp at h
+    | cons x xs =>
+      simp only [List.isEmpty_cons, Bool.false_eq_true, if_false, List.mem_cons] at h
+      rcases h with h | h
+      · subst h
+        simp only [List.length_take, List.length_cons]
+        omega
+      · exact chunksAux_sizes n fuel _ c h
+
+theorem chunks_sizes {α : Type} (n : Nat) (l : List α) : ∀ c ∈ chunks n l, 0 < c.length ∧ c.length ≤ n + 1 :=
+  chunksAux_sizes n l.length l
+
+theorem zipChunkedAux_eq {α β γ : Type} (n : Nat) (f : α → β → γ) : ∀ (fa fb : Nat) (A : List α) (B : List β),
+    A.length ≤ fa → B.length ≤ fb →
+    (List.zipWith (List.zipWith f) (chunksAux n fa A) (chunksAux n fb B)).flatten = List.zipWith f A B
+  | 0, _, A, B, ha, _ => by
+    have : A = [] := List.length_eq_zero_iff.mp (Nat.le_zero.mp ha)
+    simp [chunksAux, this]
+  | fa + 1, 0, A, B, _, hb => by
+    have : B = [] := List.length_eq_zero_iff.mp (Nat.le_zero.mp hb)
+    simp [chunksAux, this]
+  | fa + 1, fb + 1, A, B, ha, hb => by
+    cases A with
+    | nil => simp [chunksAux]
+    | cons x xs =>
+      cases B with
+      | nil => simp [chunksAux]
+      | cons y ys =>
+        rw [chunksAux, chunksAux]
+        simp only [List.isEmpty_cons, Bool.false_eq_true, if_false, List.zipWith_cons_cons, List.flatten_cons]
+        rw [zipChunkedAux_eq n f fa fb _ _
+          (by simp only [List.length_drop, List.length_cons] at ha ⊢; omega)
+          (by simp only [List.length_drop, List.length_cons] at hb ⊢; omega)]
+        rw [← List.take_zipWith, ← List.drop_zipWith]
+        exact List.take_append_drop (n + 1) _
+
+/-- CHUNK-SIZE INDEPENDENCE (element-wise binary operations on equally chunked operands, any lengths) -/
+theorem zipChunked_eq {α β γ : Type} (n : Nat) (f : α → β → γ) (A : List α) (B : List β) :
+    zipChunked n f A B = zipWhole f A B :=
+  zipChunkedAux_eq n f A.length B.length A B (le_refl _) (le_refl _)
+
+theorem foldl_assoc_id {α : Type} (op : α → α → α) (e : α) (hassoc : ∀ a b c, op (op a b) c = op a (op b c))
+    (hl : ∀ a, op e a = a) (hr : ∀ a, op a e = a) : ∀ (c : List α) (a : α), c.foldl op a = op a (c.foldl op e)
+  | [], a => by simp [hr]
+  | x :: c, a => by
+    simp only [List.foldl_cons]
+    rw [foldl_assoc_id op e hassoc hl hr c (op a x), hl x, foldl_assoc_id op e hassoc hl hr c x, hassoc]
+
+theorem foldl_flatten_chunks {α : Type} (op : α → α → α) (e : α) (hassoc : ∀ a b c, op (op a b) c = op a (op b c))
+    (hl : ∀ a, op e a = a) (hr : ∀ a, op a e = a) : ∀ (ls : List (List α)) (a : α),
+    ls.flatten.foldl op a = (ls.map fun c => c.foldl op e).foldl op a
+  | [], a => rfl
+  | c :: ls, a => by
+    simp only [List.flatten_cons, List.foldl_append, List.map_cons, List.foldl_cons]
+    rw [foldl_flatten_chunks op e hassoc hl hr ls, foldl_assoc_id op e hassoc hl hr c a]
+
+/-- CHUNK-SIZE INDEPENDENCE (reductions): for every chunk size, reducing block by block and then reducing the partial
+results equals the whole reduction, for every associative operation with a two-sided identity (max over a bounded-below
+range, sum, logical or, …). Rounding of a floating-point SUM is outside this theorem; max/min are exact in floats. -/
+theorem reduceChunked_eq {α : Type} (n : Nat) (op : α → α → α) (e : α)
+    (hassoc : ∀ a b c, op (op a b) c = op a (op b c)) (hl : ∀ a, op e a = a) (hr : ∀ a, op a e = a) (A : List α) :
+    reduceChunked n op e A = reduceWhole op e A := by
+  unfold reduceChunked reduceWhole
+  rw [← foldl_flatten_chunks op e hassoc hl hr, chunks_flatten]
+
 /-! non-vacuity -/
 example : chunks 1 [1, 2, 3, 4, 5] = [[1, 2], [3, 4], [5]] := by decide
 example : outerChunked 0 1 (fun a b => a * 10 + b) [1, 2, 3] [4, 5, 6] = [14, 15, 16, 24, 25, 26, 34, 35, 36] := by decide
+example : zipChunked 1 (fun a b => a * 10 + b) [1, 2, 3, 4, 5] [6, 7, 8] = [16, 27, 38] := by decide
+example : reduceChunked 1 Nat.max 0 [3, 9, 2, 7, 1] = 9 := by decide
+example : ∀ a b c : Nat, Nat.max (Nat.max a b) c = Nat.max a (Nat.max b c) := fun a b c => Nat.max_assoc a b c
 
 end Orix.C18
